@@ -156,8 +156,11 @@ Replace(s, at, r) == SubSeq(s, 1, at - 1) \o r \o SubSeq(s, at + Len(r), Len(s))
 Feb30 == <<"2","0","2","3","-","0","2","-","3","0","T","0","0",":","0","0",":","0","0","Z">>
 Apr31 == <<"2","0","2","3","-","0","4","-","3","1","T","0","0",":","0","0",":","0","0","Z">>
 Feb29 == <<"2","0","2","3","-","0","2","-","2","9","T","0","0",":","0","0",":","0","0","Z">>
+\* numeric offsets outside -23:59..+23:59, with either sign
+BadOffs == {<<"-","2","4",":","0","0">>, <<"+","2","4",":","0","0">>, <<"-","2","4",":","0","1">>, <<"-","2","3",":","6","0">>, <<"-","0","0",":","6","0">>, <<"+","9","9",":","0","0">>, <<"-","9","9",":","5","9">>}
 C13(z) ==
   {[op |-> "rfc_read", s |-> s] : s \in {g \in Good(z) : InShard(Len(g))}}
+  \cup (IF First THEN {[op |-> "rfc_read", s |-> SubSeq(Base, 1, k) \o o] : k \in {19, 21}, o \in BadOffs} ELSE {})
   \cup (IF First THEN {[op |-> "rfc_read", s |-> Replace(Base, m[1], m[2])] : m \in Mutations}
                       \cup {[op |-> "rfc_read", s |-> s] : s \in {Feb30, Apr31, Feb29, Base}} ELSE {})
   \cup {[op |-> "rfc_write", val |-> Dt(d, c[1], c[2], o), prec |-> pr] :
@@ -171,6 +174,16 @@ EdgeTimes == {<<"2","3",":","5","9",":","5","9">>, <<"0","0",":","0","0",":","0"
 EdgeZones == {<<"+","0","0",":","0","0">>, <<"-","0","0",":","0","1">>, <<"-","0","1",":","0","0">>, <<"+","0","1",":","0","0">>, <<"+","2","3",":","5","9">>, <<"-","2","3",":","5","9">>}
 EdgeZoneCases == {[op |-> "parse_any", ty |-> "dt", s |-> d \o <<" ">> \o t \o <<" ">> \o zz, p |-> <<"y","y","y","y","-","M","M","-","d","d"," ","H","H",":","m","m",":","s","s"," ","x","x","x">>] :
                     d \in EdgeDates, t \in EdgeTimes, zz \in EdgeZones}
+\* years at and beyond the two ends of the range with days of year / months / days at and beyond theirs
+EdgeYs == {<<"5","8","7","9","6","1","1">>, <<"-","5","8","7","9","6","1","1">>, <<"5","8","7","9","6","1","2">>, <<"-","5","8","7","9","6","1","2">>, <<"0">>, <<"1">>, <<"-","1">>}
+EdgeDoys == {<<"0">>, <<"1">>, <<"1","7","3">>, <<"1","7","4">>, <<"1","9","3">>, <<"1","9","4">>, <<"3","6","5">>, <<"3","6","6">>, <<"3","6","7">>, <<"9","9","9">>}
+EdgeMs == {<<"0">>, <<"6">>, <<"7">>, <<"1","3">>}
+EdgeDs == {<<"0">>, <<"1","2">>, <<"1","3">>, <<"2","2">>, <<"2","3">>, <<"3","2">>}
+EdgeDateCases ==
+  {[op |-> "parse_any", ty |-> ty, s |-> y \o <<" ">> \o n, p |-> <<"y"," ","D">>] : ty \in {"date", "dt"}, y \in EdgeYs, n \in EdgeDoys}
+  \cup {[op |-> "parse_any", ty |-> ty, s |-> y \o <<"-">> \o n, p |-> <<"y","-","D","D","D">>] : ty \in {"date", "dt"}, y \in EdgeYs, n \in EdgeDoys}
+  \cup {[op |-> "parse_any", ty |-> ty, s |-> y \o <<" ">> \o m \o <<" ">> \o d, p |-> <<"y"," ","M"," ","d">>] :
+          ty \in {"date", "dt"}, y \in EdgeYs, m \in EdgeMs, d \in EdgeDs}
 HostileAlphabet == <<"0", "7", "-", "+", "a", "Z", ":", "é", "日">>
 C14(z) ==
   {[op |-> "family_symbol", ty |-> ty, sym |-> Symbols[i], w |-> w, alphabet |-> HostileAlphabet, maxlen |-> IF Thorough THEN 5 ELSE 3] :
@@ -190,7 +203,7 @@ C14(z) ==
   \* runs far longer than any field width (the pattern may have any length)
   \cup {[op |-> "family_long", ty |-> ty, syms |-> Symbols \o <<"Q", "-", "'">>, lens |-> <<255, 256, 65535, 65536, 70001>>] :
           ty \in (IF First THEN {"dt", "date", "time"} ELSE {})}
-  \cup (IF First THEN EdgeZoneCases ELSE {})
+  \cup (IF First THEN EdgeZoneCases \cup EdgeDateCases ELSE {})
   \* field combinations (incl. the same field twice) read from texts whose digits are pushed to 9:
   \* the parsed fields may add up past the end of the day / month / range
   \cup {[op |-> "family_nines", ty |-> ty, p |-> p] : ty \in {"dt", "time", "date"}, p \in Pairs(z)}
@@ -198,12 +211,28 @@ C14(z) ==
           ty \in (IF First THEN {"dt", "time"} ELSE {}), a \in Elems(SubF), b \in Elems(SubF), c \in Elems(SubF) \cup {<<>>}}
 
 \* ---- C20 ----------------------------------------------------------------------------------
+\* malformed text forms ("malformed strings yield a serde error rather than a panic"): every deletion, insertion and
+\* substitution of one character of a well-formed text, every truncation, and the substitutions of two (three)
+\* characters by one two-byte (three-byte) character, which keep every byte offset plausible
+MalAlphabet == <<"0", "9", "-", "+", ":", ".", "T", "Z", " ", "é", "日">>
+Malformed(t) ==
+  {SubSeq(t, 1, i - 1) \o SubSeq(t, i + 1, Len(t)) : i \in 1..Len(t)}
+  \cup {SubSeq(t, 1, i) : i \in 0..Len(t)} \cup {SubSeq(t, i, Len(t)) : i \in 1..Len(t)}
+  \cup {SubSeq(t, 1, i - 1) \o <<MalAlphabet[c]>> \o SubSeq(t, i + 1, Len(t)) : i \in 1..Len(t), c \in 1..Len(MalAlphabet)}
+  \cup {SubSeq(t, 1, i - 1) \o <<MalAlphabet[c]>> \o SubSeq(t, i, Len(t)) : i \in 1..(Len(t) + 1), c \in 1..Len(MalAlphabet)}
+  \cup {SubSeq(t, 1, i - 1) \o <<"é">> \o SubSeq(t, i + 2, Len(t)) : i \in 1..(Len(t) - 1)}
+  \cup {SubSeq(t, 1, i - 1) \o <<"日">> \o SubSeq(t, i + 3, Len(t)) : i \in 1..(Len(t) - 2)}
+WellFormedText == [dt |-> {Base, <<"2","0","2","2","-","0","5","-","0","2","T","1","5",":","3","0",":","2","0","Z">>, <<"0","0","0","1","-","0","1","-","0","1","T","0","0",":","0","0",":","0","0",".","0","0","0","0","0","0","0","0","1","-","2","3",":","5","9">>},
+                   date |-> {<<"2","0","2","2","-","0","5","-","0","2">>, <<"-","0","0","0","1","-","1","2","-","3","1">>}, time |-> {<<"1","2",":","3","2",":","0","1">>, <<"2","3",":","5","9",":","5","9">>}]
+C20Malformed == UNION {{[op |-> op, ty |-> ty, s |-> m] : m \in UNION {Malformed(t) : t \in WellFormedText[ty]}, op \in {"fromstr_any", "serde_any"}} :
+                         ty \in {"dt", "date", "time"}}
 C20(z) ==
   {[op |-> op, val |-> v] : op \in {"display", "fromstr", "serde"}, v \in DateValues \cup TimeValues}
   \cup {[op |-> op, val |-> Dt(d, c[1], c[2], o)] : op \in {"display", "serde"},
           d \in {D(1, 1, 1), D(9999, 12, 31), D(2024, 2, 29), D(1970, 1, 1), D(2022, 12, 31), D(999, 12, 31), D(1000, 1, 1)},
           c \in Clock, o \in {0, 60, -60, 3600, -19800, 86340, -86340}}
   \cup {[op |-> "display", val |-> v] : v \in DtValues}
+  \cup (IF First THEN C20Malformed ELSE {})
 
 Cases(z) == CASE Which = "C11" -> C11(z) [] Which = "C12" -> C12(z) [] Which = "C13" -> C13(z) [] Which = "C14" -> C14(z) [] Which = "C20" -> C20(z)
 
